@@ -33,9 +33,6 @@ def knownLeak (f : FilterName) (l : Cls) (pos : Nat) (a : Option Cls) : Bool :=
   | .index_, 1 => l == undefined
   -- sum of +inf and -inf (decimal.InvalidOperation)
   | .sum_, 1 => l == list_infs
-  -- %-formatting of the message text (ValueError / KeyError)
-  | .t_, 0 | .gettext_, 0 | .pgettext_, 0 | .ngettext_, 0 | .npgettext_, 0 => l == str_pct || l == str_fmt_d
-  | .ngettext_, 1 | .npgettext_, 2 => a == some str_pct || a == some str_fmt_d
   -- str.encode of a lone surrogate (UnicodeEncodeError)
   | .url_encode_, 0 | .base64_encode_, 0 | .base64_url_safe_encode_, 0 => l == str_surrogate
   -- babel
